@@ -164,6 +164,17 @@ def _sim_params(kind, d, mixer=False):
         base.update({'simulation_class': 'GroundStateSearch', 'algorithm_class': 'TwoSiteDMRGEngine',
                      'algorithm_params': {'trunc_params': {'chi_max': 8, 'svd_min': 1e-10}, 'mixer': mixer, 'max_sweeps': 6, 'min_sweeps': 6,
                                           'N_sweeps_check': 1, 'max_E_err': 1e-16, 'max_S_err': 1e-16}})
+    elif kind == 'dmrg-default-min-sweeps':
+        base.update({'simulation_class': 'GroundStateSearch', 'algorithm_class': 'TwoSiteDMRGEngine',
+                     'algorithm_params': {'trunc_params': {'chi_max': 8, 'svd_min': 1e-10}, 'mixer': mixer, 'max_sweeps': 6,
+                                          'N_sweeps_check': 1, 'max_E_err': 1e-16, 'max_S_err': 1e-16}})
+    elif kind in ('correlation', 'correlation-braket', 'spectral'):
+        cls = {'correlation': 'TimeDependentCorrelation', 'correlation-braket': 'TimeDependentCorrelationEvolveBraKet',
+               'spectral': 'SpectralSimulation'}[kind]
+        base.update({'simulation_class': cls, 'algorithm_class': 'TEBDEngine', 'final_time': 0.4,
+                     'algorithm_params': {'trunc_params': {'chi_max': 6, 'svd_min': 1e-10}, 'dt': 0.05, 'N_steps': 2, 'order': 2},
+                     'operator_t0': {'opname': 'Sz', 'mps_idx': 2}, 'operator_t': 'Sz'})
+        base['model_params'] = dict(model, sort_charge=True)
     else:
         base.update({'simulation_class': 'RealTimeEvolution', 'algorithm_class': 'TEBDEngine', 'final_time': 0.6,
                      'algorithm_params': {'trunc_params': {'chi_max': 2, 'svd_min': 1e-10}, 'dt': 0.05, 'N_steps': 2, 'order': 2},
@@ -181,7 +192,8 @@ def m_trunc_err(results, psi, model, simulation, **kwargs):
 def resume_equals_uninterrupted(rec, quick):
     from tenpy.simulations.simulation import run_simulation, resume_from_checkpoint
     import tenpy
-    for kind, mixer in (('tebd', False), ('dmrg', False), ('dmrg', True)):
+    for kind, mixer in (('tebd', False), ('dmrg', False), ('dmrg', True), ('dmrg-default-min-sweeps', False),
+                        ('correlation', False), ('correlation-braket', False)) + ((('spectral', False),) if not quick else ()):
         with tempfile.TemporaryDirectory() as d:
             params = _sim_params(kind, d, mixer)
             ref = run_simulation(**copy.deepcopy(params))
@@ -208,6 +220,11 @@ def resume_equals_uninterrupted(rec, quick):
                 except Exception as e:
                     rec.violation(f'resume[{kind},mixer={mixer}]:resume-exception:{type(e).__name__}', f'{e}'[:300], inp)
                     continue
+                if not isinstance(res, dict):
+                    # "finishes with the same ... as an uninterrupted run": run() returns the results, so must the resumed run
+                    rec.violation(f'resume[{kind},mixer={mixer}]:returns-no-results', f'resume_from_checkpoint returned {res!r}', inp)
+                    from tenpy.tools import hdf5_io
+                    res = hdf5_io.load(os.path.join(d, 'res.pkl'))
                 # compare
                 mref, mres = ref['measurements'], res['measurements']
                 if set(mref) != set(mres):
@@ -220,8 +237,14 @@ def resume_equals_uninterrupted(rec, quick):
                     elif a.dtype != object and not np.allclose(a, b, atol=1e-9, rtol=1e-7, equal_nan=True):
                         rec.violation(f'resume[{kind},mixer={mixer}]:measurement-values[{key}]',
                                       f'{key}: uninterrupted {np.asarray(a).ravel()[-3:]} vs resumed {np.asarray(b).ravel()[-3:]}', inp)
+                if 'psi_ground_state' in ref:
+                    ovg = abs(ref['psi_ground_state'].overlap(res['psi_ground_state']))
+                    rec.check(abs(ovg - 1) < 1e-7, f'resume[{kind},mixer={mixer}]:final-state(psi_ground_state)', f'overlap {ovg}', inp)
                 ov = abs(ref['psi'].overlap(res['psi']))
-                rec.check(abs(ov - 1) < 1e-7, f'resume[{kind},mixer={mixer}]:final-state', f'|<psi_ref|psi_resumed>| = {ov}', inp)
+                nrm = abs(ref['psi'].overlap(ref['psi']))           # (the evolved state B|psi> need not be normalised)
+                nrm2 = abs(res['psi'].overlap(res['psi']))
+                rec.check(abs(ov - nrm) < 1e-7 and abs(nrm2 - nrm) < 1e-7, f'resume[{kind},mixer={mixer}]:final-state',
+                          f'|<psi_ref|psi_resumed>| = {ov}, <ref|ref> = {nrm}, <resumed|resumed> = {nrm2}', inp)
                 if 'energy' in ref:
                     rec.check(abs(ref['energy'] - res['energy']) < 1e-9, f'resume[{kind},mixer={mixer}]:energy', f"{ref['energy']} vs {res['energy']}", inp)
 
